@@ -3,6 +3,7 @@ package checks
 import (
 	"encoding/json"
 	"fmt"
+	"strings"
 
 	"verif/core"
 	"verif/gen"
@@ -134,8 +135,38 @@ func c09Sweeps(ctx *core.Ctx) {
 	})
 }
 
+// c09LongLines: every injection of the catalogue into the small tail, rendered canonically, behind ONE very long physical
+// line (a comment of 70 000 bytes after the header, or trailing blanks of that length on the header's last line): code
+// that reads lines with a token limit drops the rest of the document silently, and with it the defect.
+func c09LongLines(ctx *core.Ctx) {
+	pad := strings.Repeat("long comment ", 70000/13+1)[:70000]
+	sweepTailInjections([]int{4}, func(k int, tag, kind, _ string, m *ref.Model) bool {
+		if !ctx.Mine(1<<20 + k) {
+			return true
+		}
+		if ctx.Expired() {
+			ctx.Cap("wall-clock cap in the long-line injections")
+			return false
+		}
+		text := ref.Render(m, nil).Text
+		i := strings.Index(text, "\n")
+		j := i + 1 + strings.Index(text[i+1:], "\n")
+		if i < 0 || j <= i {
+			return true
+		}
+		for vi, t := range []string{text[:j] + "\n# " + pad + text[j:], text[:j] + strings.Repeat(" ", 70000) + text[j:]} {
+			ctx.Eval(1)
+			lc := &layoutCase{Tag: fmt.Sprintf("%s behind a long line (variant %d)", tag, vi), Model: m}
+			c09One(ctx, kind, &ref.Rendered{Text: t}, lc)
+			ctx.Flag("c09:long-lines")
+		}
+		return true
+	})
+}
+
 func c09Run(ctx *core.Ctx) {
 	c09Sweeps(ctx)
+	c09LongLines(ctx)
 	k := 0
 	for _, base := range c09Bases(ctx.Thorough()) {
 		injs := gen.Injections(base)
@@ -171,6 +202,9 @@ func init() {
 		Technique: "bounded exhaustive fault injection: models x catalogue x sites x layouts",
 		Run:       c09Run,
 		Finish: func(r *core.Result) error {
+			if !r.Flags["c09:long-lines"] {
+				return fmt.Errorf("C09: long physical lines never exercised")
+			}
 			if !r.Flags["c09:sweeps"] {
 				return fmt.Errorf("C09: size sweeps never exercised")
 			}
